@@ -20,6 +20,23 @@ func verifC11(kind int, cycles int) {
 	if unlimited {
 		cfg.TimeToLive = UnlimitedTTL
 	}
+	// eviction limits may be configured but are NOT exceeded: any subset of the three soft limits, the
+	// count limit above the number of entries, memory readings at or below the memory limits
+	heapRead, sysRead := verifUint64("heapInuseReading"), verifUint64("sysReading")
+	limits := verifChoice("limitsConfigured", 5) // 0 none, 1 count, 2 heap only, 3 sys only, 4 heap and sys
+	if limits == 1 {
+		cfg.CountSoftLimit = 3
+	}
+	if limits == 2 || limits == 4 {
+		cfg.HeapInUseSoftLimit = verifUint64("heapInUseSoftLimit")
+		verifAssume(cfg.HeapInUseSoftLimit != 0 && heapRead <= cfg.HeapInUseSoftLimit)
+	}
+	if limits == 3 || limits == 4 {
+		cfg.SysMemSoftLimit = verifUint64("sysMemSoftLimit")
+		verifAssume(cfg.SysMemSoftLimit != 0 && sysRead <= cfg.SysMemSoftLimit)
+	}
+	cfg.EvictFraction = 0.5
+	verifMemStatsFn = func() (uint64, uint64) { return heapRead, sysRead }
 	b := verifNewBackend(kind, cfg)
 	b.trait.expirationsSet = expSet
 	clk := verifInstallClock(verifT0, verifT1, true)
